@@ -1158,6 +1158,12 @@ Plan gen_c15(uint64_t seed, bool th) {
       g.add(g.mk("adv", -1, {(int64_t)(tmo * (long)g.r.range(3, 8) / 10)}));
       g.add(g.mk("send", from, {wire::T_CALL, 1, -1, 0, 0, 0, 0, 0, 0, 1, 0, 0}, {dest, "/obj", "com.example.Iface", "PassFds", "", ""}));
       g.add(g.bus_step(3));
+      if (g.r.pct(40)) {
+        // ... and yet more, as many as a message may carry: together with what is pending it no longer fits
+        g.add(g.mk("send", from, {wire::T_CALL, 1, -1, 0, 0, 0, 0, 0, 0, 16, 0, 0}, {dest, "/obj", "com.example.Iface", "PassFds", "", ""}));
+        g.add(g.bus_step(3));
+        g.add(g.mk("check"));
+      }
       g.add(g.mk("adv", -1, {(int64_t)(tmo * (long)g.r.range(3, 8) / 10)}));
       g.add(g.mk("adv", -1, {(int64_t)(tmo * (long)g.r.range(3, 8) / 10)}));
     } else g.add(g.mk("deliver", from, {-1}));
